@@ -33,10 +33,19 @@ Kinds(t) ==
     [] t.k \in {"ndarr", "dynarr", "rec"} -> {"object"}
     [] t.k = "map" -> IF Resolve(t.kt).p = "string" THEN {"object"} ELSE {"array"}
     [] t.k = "opt" -> Kinds(t.t) \cup {"null"}
-    [] t.k = "union" -> UNION { Kinds(t.cases[i].t) : i \in 1..Len(t.cases) } \cup (IF t.nullable THEN {"null"} ELSE {})
+    \* a union (as a case of another union it can only be reached through an alias): the kinds of its cases if it is written
+    \* without tags, i.e. if those are pairwise distinct; otherwise an object with the tag as its only key; null stays null
+    [] t.k = "union" -> LET ks == [i \in 1..Len(t.cases) |-> Kinds(t.cases[i].t)]
+                            distinct == /\ \A i, j \in 1..Len(t.cases) : i # j => ks[i] \cap ks[j] = {}
+                                        /\ (t.nullable => \A i \in 1..Len(t.cases) : "null" \notin ks[i])
+                        IN (IF distinct THEN UNION { ks[i] : i \in 1..Len(t.cases) } ELSE {"object"})
+                           \cup (IF t.nullable THEN {"null"} ELSE {})
 
 \* a union is written without tags iff its cases serialize to pairwise distinct JSON datatypes
-Untagged(t) == \A i, j \in 1..Len(t.cases) : i # j => Kinds(t.cases[i].t) \cap Kinds(t.cases[j].t) = {}
+\* (the null case of a nullable union counts as a case that serializes to null: a case that may itself be null - an alias of an
+\* optional or of a nullable union - would otherwise be indistinguishable from it)
+Untagged(t) == /\ \A i, j \in 1..Len(t.cases) : i # j => Kinds(t.cases[i].t) \cap Kinds(t.cases[j].t) = {}
+               /\ (t.nullable => \A i \in 1..Len(t.cases) : "null" \notin Kinds(t.cases[i].t))
 
 IsNullable(t) == LET r == Resolve(t) IN r.k = "opt" \/ (r.k = "union" /\ r.nullable)
 IsNullValue(t, v) == LET r == Resolve(t) IN IF r.k = "opt" THEN v = <<>> ELSE IF r.k = "union" THEN v.c = 0 ELSE FALSE
